@@ -1444,6 +1444,294 @@ func firstLine(err error) string {
 	return strings.SplitN(err.Error(), "\n", 2)[0]
 }
 
+// ---------------------------------------------------------------- concurrent growth of a shared memory
+
+// ConcCase: one shared memory (threads feature) defined by module "owner" is grown at the same
+// time by guest "threads" (separate instances importing the memory, one goroutine and one
+// api.Function each, executing memory.grow) and by host goroutines calling api.Memory.Grow.
+// Goroutine k performs N[k] grows with deltas cycling through Pat[k]; the first Guests
+// goroutines are guest threads, the others host goroutines.
+type ConcCase struct {
+	Conc   bool       `json:"concurrent"`
+	Engine string     `json:"engine"`
+	Alloc  string     `json:"alloc"` // default | mmap (a shared memory must not move)
+	Min    uint32     `json:"min"`
+	Max    uint32     `json:"max"`
+	Guests int        `json:"guest_threads"`
+	N      []int      `json:"grows"`
+	Pat    [][]uint32 `json:"deltas"`
+	Rounds int        `json:"rounds"`
+}
+
+func (c ConcCase) String() string {
+	return fmt.Sprintf("{engine=%s alloc=%s shared memory min=%d max=%d, %d guest threads + %d host goroutines, grows=%v deltas=%v}",
+		c.Engine, c.Alloc, c.Min, c.Max, c.Guests, len(c.N)-c.Guests, c.N, c.Pat)
+}
+
+func validConc(c ConcCase) bool {
+	if (c.Engine != "interpreter" && c.Engine != "compiler") || (c.Alloc != "default" && c.Alloc != "mmap") {
+		return false
+	}
+	if c.Min > c.Max || c.Max > 8192 || len(c.N) < 1 || len(c.N) > 32 || len(c.Pat) != len(c.N) || c.Guests < 0 || c.Guests > len(c.N) || c.Rounds < 1 || c.Rounds > 50 {
+		return false
+	}
+	for k := range c.N {
+		if c.N[k] < 0 || c.N[k] > 5000 || len(c.Pat[k]) == 0 {
+			return false
+		}
+	}
+	return true
+}
+
+type growRec struct {
+	d    uint32
+	prev uint32
+	ok   bool
+}
+
+// checkGrowHistory decides whether the per-goroutine results are the results of SOME serial
+// order of the grow requests on a counter starting at init and bounded by max.
+func checkGrowHistory(init, max uint32, recs [][]growRec) (final uint32, msg string) {
+	type pair struct{ prev, d uint32 }
+	var ps []pair
+	for _, rs := range recs {
+		for _, r := range rs {
+			if r.ok && r.d > 0 {
+				ps = append(ps, pair{r.prev, r.d})
+			}
+		}
+	}
+	sort.Slice(ps, func(i, j int) bool { return ps[i].prev < ps[j].prev })
+	cur := init
+	states := map[uint32]bool{init: true}
+	for _, p := range ps {
+		if p.prev != cur {
+			if p.prev < cur {
+				return 0, fmt.Sprintf("a successful grow by %d returned the previous size %d, but in every serial order the size at that point is %d (another successful grow already returned %d or covers it): two growers saw the same size / growth was lost", p.d, p.prev, cur, p.prev)
+			}
+			return 0, fmt.Sprintf("a successful grow by %d returned the previous size %d, but no sequence of the other successful grows reaches that size (closest below: %d)", p.d, p.prev, cur)
+		}
+		cur += p.d
+		if cur > max {
+			return 0, fmt.Sprintf("successful grows add up to %d pages, above the maximum %d", cur, max)
+		}
+		states[cur] = true
+	}
+	final = cur
+	// per goroutine: observed sizes never decrease, zero-delta grows return a size that existed,
+	// failures only when the request did not fit at some size the goroutine could have seen
+	for g, rs := range recs {
+		seen := init
+		for i, r := range rs {
+			if !r.ok {
+				if r.d == 0 {
+					return final, fmt.Sprintf("goroutine %d: Grow(0) failed", g)
+				}
+				// the size at the time of the failure is at most the next size this goroutine observed
+				upper := final
+				for _, n := range rs[i+1:] {
+					if n.ok {
+						upper = n.prev
+						break
+					}
+				}
+				if uint64(upper)+uint64(r.d) <= uint64(max) {
+					return final, fmt.Sprintf("goroutine %d, grow #%d by %d failed although the size was at most %d then and the maximum is %d", g, i, r.d, upper, max)
+				}
+				continue
+			}
+			if r.prev < seen {
+				return final, fmt.Sprintf("goroutine %d, grow #%d returned the previous size %d after the same goroutine had already seen %d pages: the memory shrank", g, i, r.prev, seen)
+			}
+			if !states[r.prev] {
+				return final, fmt.Sprintf("goroutine %d, grow #%d (delta %d) returned the size %d, which the memory never had in any serial order of the successful grows", g, i, r.d, r.prev)
+			}
+			seen = r.prev + r.d
+		}
+	}
+	return final, ""
+}
+
+func concModules(c ConcCase) (owner, thread []byte) {
+	lim := wasmenc.Limits(c.Min, int64(c.Max), true)
+	o := &wasmenc.Module{Mems: [][]byte{lim}}
+	o.Exports = append(o.Exports, wasmenc.Export{Name: "mem", Kind: wasmenc.KMem, Idx: 0})
+	t := &wasmenc.Module{}
+	t.Imports = append(t.Imports, wasmenc.Import{Mod: "owner", Name: "mem", Kind: wasmenc.KMem, Desc: lim})
+	t.ExportFunc("grow", t.AddFunc([]byte{i32}, []byte{i32}, nil, wasmenc.NewB().LocalGet(0).MemoryGrow().Bytes()))
+	t.ExportFunc("size", t.AddFunc(nil, []byte{i32}, nil, wasmenc.NewB().MemorySize().Bytes()))
+	return o.Encode(), t.Encode()
+}
+
+func runConcRound(c ConcCase) (f *failure) {
+	defer func() {
+		if r := recover(); r != nil {
+			f = failf("%v: panic escaped wazero's API: %v", c, r)
+		}
+	}()
+	rt := wazero.NewRuntimeWithConfig(bg, wz.Config(c.Engine))
+	defer rt.Close(bg)
+	ctx := bg
+	var al *allocator
+	if c.Alloc == "mmap" {
+		al = newAllocator("mmap")
+		defer al.release()
+		ctx = experimental.WithMemoryAllocator(bg, al)
+	}
+	ob, tb := concModules(c)
+	owner, err := rt.InstantiateWithConfig(ctx, ob, wazero.NewModuleConfig().WithName("owner"))
+	if err != nil {
+		return failf("%v: the module defining the shared memory was rejected: %s", c, firstLine(err))
+	}
+	mem := owner.ExportedMemory("mem")
+	cm, err := rt.CompileModule(bg, tb)
+	if err != nil {
+		return failf("%v: thread module rejected: %s", c, firstLine(err))
+	}
+	grow := make([]api.Function, c.Guests)
+	var size api.Function
+	for k := 0; k < c.Guests; k++ {
+		m, err := rt.InstantiateModule(bg, cm, wazero.NewModuleConfig().WithName(fmt.Sprintf("thread%d", k)))
+		if err != nil {
+			return failf("%v: instantiating thread %d failed: %s", c, k, firstLine(err))
+		}
+		grow[k] = m.ExportedFunction("grow") // one api.Function per goroutine
+		size = m.ExportedFunction("size")
+	}
+	recs := make([][]growRec, len(c.N))
+	errs := make([]string, len(c.N))
+	start := make(chan struct{})
+	var wg sync.WaitGroup
+	for k := range c.N {
+		wg.Add(1)
+		go func(k int) {
+			defer wg.Done()
+			defer func() {
+				if r := recover(); r != nil {
+					errs[k] = fmt.Sprintf("goroutine %d: panic escaped: %v", k, r)
+				}
+			}()
+			rs := make([]growRec, 0, c.N[k])
+			<-start
+			for n := 0; n < c.N[k]; n++ {
+				d := c.Pat[k][n%len(c.Pat[k])]
+				if k < c.Guests {
+					res, err := grow[k].Call(bg, uint64(d))
+					if err != nil {
+						errs[k] = fmt.Sprintf("guest thread %d: memory.grow(%d) failed: %s", k, d, firstLine(err))
+						break
+					}
+					rs = append(rs, growRec{d: d, prev: uint32(res[0]), ok: uint32(res[0]) != 0xffffffff})
+				} else {
+					prev, ok := mem.Grow(d)
+					rs = append(rs, growRec{d: d, prev: prev, ok: ok})
+				}
+			}
+			recs[k] = rs
+		}(k)
+	}
+	close(start)
+	wg.Wait()
+	for _, e := range errs {
+		if e != "" {
+			return failf("%v: %s", c, e)
+		}
+	}
+	final, msg := checkGrowHistory(c.Min, c.Max, recs)
+	if msg != "" {
+		return failf("%v: concurrent grows of the shared memory are not explained by any serial order: %s", c, msg)
+	}
+	// afterwards (single-threaded): every view agrees on the final size
+	g0, ok := mem.Grow(0)
+	if !ok || g0 != final || mem.Size() != uint32(uint64(final)<<16) {
+		return failf("%v: after the concurrent grows the host sees Grow(0)=(%d,%v) Size()=%d bytes, the successful grows add up to %d pages", c, g0, ok, mem.Size(), final)
+	}
+	if size != nil {
+		res, o := wz.SafeCall(bg, size)
+		if o.Kind != wz.KOK || uint32(res[0]) != final {
+			return failf("%v: after the concurrent grows guest memory.size = %v %v, the successful grows add up to %d pages", c, res, o, final)
+		}
+	}
+	if al != nil {
+		al.st.mu.Lock()
+		defer al.st.mu.Unlock()
+		if len(al.st.problems) > 0 {
+			return failf("%v: custom allocator contract: %s", c, al.st.problems[0])
+		}
+	}
+	return nil
+}
+
+func runConc(c ConcCase) *failure {
+	if !validConc(c) {
+		return nil
+	}
+	for r := 0; r < c.Rounds; r++ {
+		if f := runConcRound(c); f != nil {
+			f.msg = fmt.Sprintf("round %d: %s", r, f.msg)
+			return f
+		}
+	}
+	return nil
+}
+
+func genConc(t *rapid.T) ConcCase {
+	c := ConcCase{Conc: true, Engine: rapid.SampledFrom(wz.Engines).Draw(t, "engine"), Alloc: rapid.SampledFrom([]string{"default", "default", "mmap"}).Draw(t, "alloc"), Rounds: 3}
+	c.Max = rapid.SampledFrom([]uint32{64, 128, 256, 256, 512, 512, 1024, 2048}).Draw(t, "max")
+	if rapid.IntRange(0, 19).Draw(t, "max-big") == 0 {
+		c.Max = 4096
+	}
+	c.Min = uint32(rapid.IntRange(0, 3).Draw(t, "min"))
+	g := rapid.IntRange(2, 8).Draw(t, "goroutines")
+	c.Guests = rapid.IntRange(0, g).Draw(t, "guest-threads")
+	// mostly "max large enough": scale the number of grows so that the sum stays below max
+	fit := rapid.IntRange(0, 3).Draw(t, "may-exceed-max") != 0
+	for k := 0; k < g; k++ {
+		pat := rapid.SampledFrom([][]uint32{{1}, {1}, {1}, {0, 1}, {1, 2}, {2}, {1, 0, 3}, {1, 1, 5}}).Draw(t, "deltas")
+		n := rapid.SampledFrom([]int{30, 100, 300, 300, 600}).Draw(t, "n")
+		if fit {
+			sum := 0
+			for _, d := range pat {
+				sum += int(d)
+			}
+			per := int(c.Max-c.Min) / g // pages this goroutine may use
+			if lim := per * len(pat) / sum; n > lim {
+				n = lim
+			}
+		}
+		c.N = append(c.N, n)
+		c.Pat = append(c.Pat, pat)
+	}
+	return c
+}
+
+// TestConcurrentGrow: also run as a small batch under the race detector by the driver.
+func TestConcurrentGrow(t *testing.T) {
+	if evid.ReplayPath() != "" {
+		t.Skip()
+	}
+	n := evid.Scale(300, 16000)
+	if os.Getenv("VERIF_RACE") != "" {
+		n = 16
+		if evid.Thorough() {
+			n = 100
+		}
+	}
+	evid.Check(t, "concurrent-grow", n, func(t *rapid.T) {
+		c := genConc(t)
+		evid.Journal(c)
+		if f := runConc(c); f != nil {
+			evid.Fail(t, c, "%s", f.msg)
+		}
+		l := []string{"concurrent-grow", "concurrent-grow-" + c.Engine}
+		if c.Guests > 0 && c.Guests < len(c.N) {
+			l = append(l, "concurrent-guest-and-host-growers")
+		}
+		evid.Case(evid.Hash64(fmt.Sprintf("%+v", c)), true, l...)
+		evid.Sample("concurrent-grow", 1, c)
+	})
+}
+
 // ---------------------------------------------------------------- known-defect probes
 
 var (
@@ -2260,6 +2548,16 @@ func TestReplay(t *testing.T) {
 	p := evid.ReplayPath()
 	if p == "" {
 		t.Skip()
+	}
+	var cc ConcCase
+	if _, err := evid.LoadReplay(p, &cc); err == nil && cc.Conc {
+		for i := 0; i < 8; i++ { // schedule dependent: try the recorded case several times
+			if f := runConc(cc); f != nil {
+				evid.Violation("replay", cc, "%s", f.msg)
+				t.Fatal(f.msg)
+			}
+		}
+		return
 	}
 	var c Case
 	if _, err := evid.LoadReplay(p, &c); err != nil {
